@@ -64,3 +64,73 @@ Definition path_loader (read : str -> read_result) (dir name : str) : loader_res
       | ReadOtherError => LoadErr E_InvalidOperation
       end
   end.
+
+(* ---------------------------------------------------------------------------------------- *)
+(* How a template name computed inside a template reaches the loader:                        *)
+(*   environment.rs::join_template_path, vm/state.rs::State::get_template,                   *)
+(*   loader.rs::LoaderStore::get (behind Environment::get_template),                         *)
+(*   vm/mod.rs::perform_include (include / import / from-import) and load_blocks (extends).  *)
+(* ---------------------------------------------------------------------------------------- *)
+Record env := mk_env {
+  (* templates the store already holds under a name: add_template* or loaded before (memo cache) *)
+  stored : str -> option str;
+  (* Environment::set_loader *)
+  loader : option (str -> loader_result);
+  (* Environment::set_path_join_callback: cb(name, parent) *)
+  path_join : option (str -> str -> str)
+}.
+
+(* environment.rs::join_template_path *)
+Definition join_template_path (e : env) (name parent : str) : str :=
+  match path_join e with
+  | Some cb => cb name parent
+  | None => name
+  end.
+
+Inductive get_result :=
+| Found (source : str)          (* the source that is compiled and evaluated *)
+| NotFound                      (* ErrorKind::TemplateNotFound *)
+| LoaderFailed (code : Z).      (* the loader's own error *)
+
+(* LoaderStore::get: the store first, else the loader with this very name.
+   Second component: the names the loader was called with. *)
+Definition env_get_template (e : env) (name : str) : get_result * list str :=
+  match stored e name with
+  | Some src => (Found src, [])
+  | None =>
+      match loader e with
+      | None => (NotFound, [])
+      | Some l =>
+          (match l name with
+           | LoadOk s => Found s
+           | LoadMissing => NotFound
+           | LoadErr c => LoaderFailed c
+           end, [name])
+      end
+  end.
+
+(* State::get_template, called by the template named [parent] *)
+Definition state_get_template (e : env) (parent name : str) : get_result * list str :=
+  env_get_template e (join_template_path e name parent).
+
+(* load_blocks ({% extends %}): the operand must be a string ([None] = any other value) *)
+Definition extends_lookup (e : env) (parent : str) (operand : option str) : get_result * list str :=
+  match operand with
+  | None => (LoaderFailed E_InvalidOperation, [])        (* "template name was not a string" *)
+  | Some name => env_get_template e (join_template_path e name parent)
+  end.
+
+(* perform_include ({% include %}, {% import %}, {% from .. import %}): the operand is one value or
+   a sequence of choices; the first one that is found is evaluated, a missing one is skipped, any
+   other failure ends the include *)
+Fixpoint include_lookup (e : env) (parent : str) (choices : list (option str)) : get_result * list str :=
+  match choices with
+  | [] => (NotFound, [])
+  | None :: _ => (LoaderFailed E_InvalidOperation, [])
+  | Some name :: rest =>
+      let '(r, asked) := state_get_template e parent name in
+      match r with
+      | NotFound => let '(r', asked') := include_lookup e parent rest in (r', asked ++ asked')
+      | _ => (r, asked)
+      end
+  end.
